@@ -677,6 +677,16 @@ def replay_m(path):
     d = json.load(open(path))
     if d.get('kind') == 'eval_impl':
         return replay_eval_impl(path)
+    if d.get('kind') == 'autoreload':
+        err = build_tool('reload')
+        if err:
+            print(err)
+            return False
+        p = subprocess.run([os.path.join(BUILD, 'native', 'debug', 'reload')], stdout=subprocess.PIPE, stderr=subprocess.PIPE, text=True, timeout=120)
+        names = {s['scenario'] for s in d['scenarios']}
+        bad = [s for s in (json.loads(l) for l in p.stdout.split('\n') if l.strip().startswith('{')) if s['scenario'] in names and not s['ok']]
+        print(json.dumps(bad, indent=1))
+        return bool(bad)
     err = build_restore()
     if err:
         print(err)
@@ -774,3 +784,182 @@ def replay_eval_impl(path):
     bad = [s for s in run_vmexits() if s['scenario'] in names and not s['ok']]
     print(json.dumps(bad, indent=1))
     return bool(bad)
+
+
+# ---------------------------------------------------------------------------------------------
+# minijinja-autoreload (C20): the cache lock is held while the creator runs; a request always sets the flag
+# ---------------------------------------------------------------------------------------------
+def dump_mir_autoreload(repo, out_dir):
+    os.makedirs(out_dir, exist_ok=True)
+    lib = os.path.join(repo, 'minijinja-autoreload', 'src', 'lib.rs')
+    os.utime(lib, None)
+    env = dict(os.environ, CARGO_NET_OFFLINE='true', CARGO_TARGET_DIR=os.path.join(out_dir, 'target'))
+    p = subprocess.run(['cargo', '+nightly', 'rustc', '--offline', '--lib', '--no-default-features', '--', '-Zunpretty=mir', '-C', 'debug-assertions=off'],
+                       cwd=os.path.join(repo, 'minijinja-autoreload'), env=env, stdout=subprocess.PIPE, stderr=subprocess.PIPE, text=True, timeout=900)
+    if p.returncode != 0 or 'fn ' not in p.stdout:
+        raise MirError('MIR dump of minijinja-autoreload failed: ' + p.stderr[-600:])
+    return p.stdout
+
+
+def check_lock_held_at_creator(fn):
+    """acquire_env: the MutexGuard of the cache is held (H = 1) at the calls of the creator, of
+    clear_templates and of prepare_and_mark_reload: H +1 where a Mutex::lock result is unwrapped into a guard,
+    -1 where a guard local is dropped (drop terminator or mem::drop call)."""
+    adj, preds = cfg(fn)
+    guards = set()
+    lock_results = set()
+    for b in fn['blocks'].values():
+        dst, callee = call_of(b['term'])
+        if dst and re.search(r'std::sync::Mutex::<.*>::lock\(', callee):
+            lock_results.add(dst)
+    for b in fn['blocks'].values():
+        dst, callee = call_of(b['term'])
+        if dst and re.search(r'^Result::<std::sync::MutexGuard<.*>::unwrap\((?:move|copy) (_\d+)\)', callee):
+            if re.search(r'unwrap\((?:move|copy) (_\d+)\)', callee).group(1) in lock_results:
+                guards.add(dst)
+    if not guards:
+        return 'unknown', dict(kind='no cache lock acquisition found in acquire_env', calls=[]), 0.0, {}
+    s_ = z3.Solver()
+    s_.set('timeout', 30000)
+    D = {b: z3.Int('H_%s' % b) for b in fn['blocks'] if not fn['blocks'][b]['cleanup']}
+    s_.add(D['bb0'] == 0)
+    n = 0
+    need = []
+    for bid in adj:
+        blk = fn['blocks'][bid]
+        t = blk['term']
+        dst, callee = call_of(t)
+        if callee and re.search(r'as Fn<\(Notifier,\)>>::call\(|Environment::<[^>]*>::clear_templates\(|Notifier::prepare_and_mark_reload\(|Notifier::\w*reload\w*\(', callee) \
+                and not re.search(r'Notifier::should_reload\(|Notifier::fast_reload\(', callee):
+            need.append(bid)
+        for label, tgt in adj[bid]:
+            if fn['blocks'][tgt]['term'] == 'return;':
+                continue
+            eff = 0
+            if label == 'ok':
+                if dst in guards:
+                    eff = 1
+                m = re.match(r'drop\((_\d+)\)', t)
+                if m and m.group(1) in guards:
+                    eff = -1
+                if callee and re.search(r'mem::drop::<std::sync::MutexGuard', callee) and re.search(r'\((?:move|copy) (_\d+)\)', callee) and \
+                        re.search(r'\((?:move|copy) (_\d+)\)', callee).group(1) in guards:
+                    eff = -1
+            s_.add(D[tgt] == D[bid] + eff)
+            n += 1
+    for b in need:
+        s_.add(D[b] == 1)
+    t0 = time.time()
+    r = s_.check()
+    dt = time.time() - t0
+    stats = dict(blocks=len(D), edges=n, guards=len(guards), calls_needing_the_lock=len(need))
+    if not need:
+        return 'unknown', dict(kind='creator call not found in acquire_env', calls=[]), dt, stats
+    if r == z3.sat:
+        return 'sat', None, dt, stats
+    if r != z3.unsat:
+        return str(r), None, dt, stats
+    return 'unsat', dict(kind='the cache lock is not held at the creator / clear_templates / flag-reset call on some path', calls=[]), dt, stats
+
+
+def check_request_sets_flag(fn, flag_index):
+    """request_reload: on EVERY path on which the notifier handle exists the flag field is set to true."""
+    adj, preds = cfg(fn)
+    s_ = z3.Solver()
+    s_.set('timeout', 30000)
+    D = {b: z3.Int('S_%s' % b) for b in fn['blocks'] if not fn['blocks'][b]['cleanup']}
+    s_.add(D['bb0'] == 0)
+    handle_locals = set()
+    for b in fn['blocks'].values():
+        dst, callee = call_of(b['term'])
+        if dst and re.search(r'Notifier::handle\(', callee):
+            handle_locals.add(dst)
+    der, _ = derive_map(fn)
+    n = sets = 0
+    returns = []
+    for bid in adj:
+        blk = fn['blocks'][bid]
+        sets_flag = any(re.match(r'\(\(\*_\d+\)\.%d: bool\) = const true;' % flag_index, st) for st in blk['stmts'])
+        sets += 1 if sets_flag else 0
+        for label, tgt in adj[bid]:
+            if isinstance(label, tuple):
+                m = re.match(r'switchInt\((?:copy|move) (_\d+)\)', blk['term'])
+                loc = m.group(1)
+                if loc in der and der[loc][1] == 'disc' and der[loc][0] in handle_locals and label[1] == '0':
+                    continue          # no notifier any more: nothing to request
+            s_.add(D[tgt] == D[bid] + (1 if sets_flag else 0))
+            n += 1
+            if fn['blocks'][tgt]['term'] == 'return;':
+                returns.append(tgt)
+    for r_ in set(returns):
+        s_.add(D[r_] == 1)
+    t0 = time.time()
+    r = s_.check()
+    dt = time.time() - t0
+    stats = dict(blocks=len(D), edges=n, flag_assignments=sets)
+    if r == z3.sat and sets:
+        return 'sat', None, dt, stats
+    if r not in (z3.sat, z3.unsat):
+        return str(r), None, dt, stats
+    return 'unsat', dict(kind='request_reload can return without having set the flag although the notifier exists', calls=[]), dt, stats
+
+
+def analyse_autoreload(repo, out_dir):
+    mir = dump_mir_autoreload(repo, out_dir)
+    src = open(os.path.join(repo, 'minijinja-autoreload', 'src', 'lib.rs'), encoding='utf-8').read()
+    m = re.search(r'struct NotifierImpl \{(.*?)\n\}', src, re.S)
+    fields = re.findall(r'^\s*(?:pub(?:\(crate\))? )?(\w+):', re.sub(r'#\[[^\]]*\]', '', m.group(1)), re.M) if m else []
+    out = []
+    t = function_text(mir, r'^fn <impl at [^>]*>::acquire_env\(')
+    if t is None:
+        out.append(dict(function='acquire_env', verdict='missing'))
+    else:
+        v, info, dt, stats = check_lock_held_at_creator(parse_function(t))
+        out.append(dict(function='acquire_env', resource='lock_held_at_creator', spec={}, verdict=v, z3_s=round(dt, 3), conflict=(info or {}).get('kind'), **stats))
+    t = function_text(mir, r'^fn <impl at [^>]*>::request_reload\(')
+    if t is None or 'should_reload' not in fields:
+        out.append(dict(function='request_reload', verdict='missing'))
+    else:
+        v, info, dt, stats = check_request_sets_flag(parse_function(t), fields.index('should_reload'))
+        out.append(dict(function='request_reload', resource='request_sets_flag', spec={}, verdict=v, z3_s=round(dt, 3), conflict=(info or {}).get('kind'), **stats))
+    return out
+
+
+def run_autoreload(prop, tier, seed):
+    t0 = time.time()
+    ev = dict(engine='M', violations=[], known_hits=[], problems=[], coverage={})
+    try:
+        results = analyse_autoreload(REPO, os.path.join(BUILD, 'mir'))
+    except MirError as e:
+        ev['problems'].append('engine M: %s' % e)
+        return ev
+    err = build_tool('reload')
+    if err:
+        ev['problems'].append('engine M: native scenario tool did not build: ' + err[-300:])
+        return ev
+    p = subprocess.run([os.path.join(BUILD, 'native', 'debug', 'reload')], stdout=subprocess.PIPE, stderr=subprocess.PIPE, text=True, timeout=120)
+    scen = [json.loads(l) for l in p.stdout.split('\n') if l.strip().startswith('{')]
+    for r in results:
+        if r['verdict'] == 'sat':
+            continue
+        if r['verdict'] != 'unsat':
+            ev['problems'].append('engine M: %s: %s %s' % (r['function'], r['verdict'], r.get('conflict') or ''))
+            continue
+        failing = [s for s in scen if s['check'] == r['resource'] and not s['ok']]
+        if failing:
+            rp = os.path.join(nativelib.replay_dir(), '%s-M-%s.json' % (prop, r['function']))
+            json.dump(dict(engine='M', kind='autoreload', property=prop, mir_finding=r, scenarios=failing,
+                           how='bin/check %s --replay %s' % (prop, rp)), open(rp, 'w'), indent=1)
+            ev['violations'].append(dict(replay=rp, failed=[dict(desc='%s: %s; native scenario %s: %s' % (
+                r['function'], r.get('conflict'), failing[0]['scenario'], failing[0]['detail'][:200]), loc='minijinja-autoreload/src/lib.rs (MIR)')]))
+        else:
+            ev['problems'].append('engine M: %s: %s, but the native scenario does not misbehave' % (r['function'], r.get('conflict')))
+    bad_scen = [s for s in scen if not s['ok']]
+    if bad_scen and all(r['verdict'] == 'sat' for r in results):
+        ev['problems'].append('engine M: native scenario %s misbehaves (%s) although the MIR checks hold' % (bad_scen[0]['scenario'], bad_scen[0]['detail'][:200]))
+    log('[%s] engine M (autoreload MIR): %s; %d native scenarios, %d misbehaving' % (
+        prop, ', '.join('%s=%s' % (r.get('resource', r['function']), r['verdict']) for r in results), len(scen), len(bad_scen)))
+    ev['coverage'] = dict(queries=len(results), results=results, native_scenarios=len(scen), native_scenarios_failing=len(bad_scen),
+                          functions=['AutoReloader::acquire_env', 'Notifier::request_reload'])
+    ev['wall_s'] = round(time.time() - t0, 1)
+    return ev
